@@ -50,7 +50,7 @@ def rule_a(ctx, cr):
                 continue
             n_x += 1
             d = g.describe(c.args[0])
-            if not ("arg:param" in d or "_1.1" in d):
+            if not ("arg:2" in d or "_1.1" in d):
                 bad.append((c.name.rsplit("::", 1)[1], d[:50]))
     ctx.check(not bad, "C10.a", "mangle/function-name-verbatim", mg.span,
               "no transformation is applied to the function's name (%d on the parameter)" % n_x,
@@ -62,8 +62,8 @@ def rule_a(ctx, cr):
     for g in fam:
         for c in g.calls_matching(r"fmt::Arguments::<'a>::new$"):
             pieces = _format_pieces(g, c.args[1])
-    ok = bool(pieces) and len(pieces) == 3 and "arg:param" in pieces[0] and \
-        "arg:param" in pieces[2] and "arg:param" not in pieces[1]
+    ok = bool(pieces) and len(pieces) == 3 and "arg:2" in pieces[0] and \
+        "arg:2" in pieces[2] and "arg:2" not in pieces[1]
     ctx.check(ok, "C10.a", "mangle/typed-by-parameter", mg.span,
               "<parameter base>.<function>.<parameter suffix>: Var types a name by its last "
               "character or else its first letter, both are the parameter's",
@@ -113,7 +113,7 @@ def rule_a(ctx, cr):
     ds = cr.need_fn("lang::ast::Expression::expect::descend")
     ctx.touch(ds)
     gets = [c for c in ds.calls_matching(r"HashMap::<K, V, S, A>::get$")
-            if ds.describe(c.args[0]) == "arg:var_map"]
+            if ds.describe(c.args[0]) == "arg:2"]
     arrs = [b for b, i, st in ds.aggregates("lang::ast::Variable", "Array")]
     ctx.check(bool(arrs) and not any(ds.can_reach(g.bb, b) for g in gets for b in arrs), "C10.a",
               "descend/substitutes-scalars-only", ds.span,
@@ -129,7 +129,7 @@ def rule_a(ctx, cr):
     for c in ds.calls():
         if c.name in (ds.path, "lang::parse::BasicParser<'a>::expect_fn_expression_list"):
             n += 1
-            if ds.describe(c.args[1]) != "arg:var_map":
+            if ds.describe(c.args[1]) != "arg:2":
                 bad.append(c.span["line"])
         if c.name in ("lang::parse::BasicParser<'a>::expect_expression",
                       "lang::parse::BasicParser<'a>::expect_expression_list"):
@@ -143,11 +143,11 @@ def rule_a(ctx, cr):
         ctx.touch(g)
         cs = [c for c in g.calls() if c.name in ("lang::parse::BasicParser<'a>::expect_fn_expression",
                                                  "lang::ast::Expression::expect")]
-        ctx.check(bool(cs) and all(g.describe(c.args[1]) == "arg:var_map" for c in cs), "C10.a",
+        ctx.check(bool(cs) and all(g.describe(c.args[1]) == "arg:2" for c in cs), "C10.a",
                   "%s/threads-map" % name, g.span, "passes its map on")
     ex = cr.need_fn("lang::ast::Expression::expect")
     cs = ex.calls_to(ds.path)
-    ctx.check(len(cs) == 1 and ex.describe(cs[0].args[1]) == "arg:var_map", "C10.a",
+    ctx.check(len(cs) == 1 and ex.describe(cs[0].args[1]) == "arg:2", "C10.a",
               "Expression::expect/threads-map", ex.span, "passes its map to descend")
 
 
